@@ -199,6 +199,25 @@ def check_model(case):
     facts = dict(criterion=crit, n=n, d=d, max_depth=case["max_depth"], min_samples_leaf=case["min_samples_leaf"])
     m = _PTR(criterion=crit, max_depth=case["max_depth"], min_samples_leaf=case["min_samples_leaf"], random_state=0)
     X0, y0 = X.copy(), y.copy()
+    bad = case.get("bad_first")
+    if bad:
+        # a fit that raises inside the tree builder's own validation (after the criterion name was swapped for an object), then the real
+        # fit on the same instance: the name is back and the leaves are fitted as for a fresh instance
+        yb, wb = y.copy(), w
+        if bad == "nan-y":
+            yb[0] = np.nan
+        elif bad == "short-weights":
+            wb = np.ones(n - 1)
+        elif bad == "negative-depth":
+            m.set_params(max_depth=-1)
+        try:
+            m.fit(X, yb, sample_weight=wb)
+            bad = bad + ":accepted"
+        except Exception:  # noqa: BLE001 - the refusal itself is C02's business
+            pass
+        require(m.get_params()["criterion"] == crit, "criterion:not-restored:after-failed-fit", "criterion is %r after a fit that raised (%s)" % (m.get_params()["criterion"], bad), facts)
+        m.set_params(max_depth=case["max_depth"])
+    facts["bad_first"] = bad or "none"
     r = m.fit(X, y, sample_weight=w)
     require(r is m, "fit:not-self", "", facts)
     require(m.criterion == crit, "criterion:not-restored", "criterion is %r after fit" % (m.criterion,), facts)
@@ -246,7 +265,7 @@ def check_model(case):
                 require(np.abs(pred_q[qi] - mean).max() <= 1e-9 * scale, "simple:query-row", "leaf %d" % leaf, facts)
     nl = len(leaves)
     return Outcome([crit, "leaves=1" if nl == 1 else ("leaves<=4" if nl <= 4 else "leaves>4"), "weights" if w is not None else "unit",
-                    "d=%d" % d, "has-wellcond-leaf" if wellcond else "no-wellcond-leaf"], nl >= 2)
+                    "d=%d" % d, "has-wellcond-leaf" if wellcond else "no-wellcond-leaf", "failed-fit-first:" + str(facts["bad_first"])], nl >= 2)
 
 
 _u = st.integers(-999983, 999983).map(lambda v: v / 1e6)
@@ -264,7 +283,8 @@ def _model_cases(draw, tier="quick"):
                 noise=[draw(_u) for _ in range(60)], criterion=crit, max_depth=draw(st.integers(1, 4)),
                 min_samples_leaf=draw(st.integers(1, 8)),
                 w=draw(st.one_of(st.none(), st.lists(st.integers(1, 16).map(lambda v: v / 4.0), min_size=60, max_size=60))),
-                Q=[[draw(st.integers(-36, 36)) / 4.0 for _ in range(d)] for _ in range(mq)])
+                Q=[[draw(st.integers(-36, 36)) / 4.0 for _ in range(d)] for _ in range(mq)],
+                bad_first=draw(st.sampled_from([None, None, None, "nan-y", "short-weights", "negative-depth"])))
 
 
 CLAUSES = [
